@@ -46,6 +46,12 @@ def gen_world(rng, tier):
                 names.append(rng.choice("CNOSP") + "%d" % (len(names) + 1))
                 resnames.append(kn)
                 resids.append(r + 1)
+        if rng.random() < 0.2:
+            # a symmetric residue: a later atom carries the same name as the residue's first atom (CA CB CA ...)
+            r_ = rng.randrange(len(seq))
+            st_ = sum(k[1] for k in seq[:r_])
+            if seq[r_][1] >= 3:
+                names[st_ + rng.randrange(2, seq[r_][1])] = names[st_]
         n = len(names)
         # atoms of equal residue kinds must carry equal names (they are the same residue kind in the file)
         first = {}
